@@ -7,7 +7,7 @@ Local Open Scope nat_scope.
 
 Definition doc_env (d : deviations) (base : lexcfg) (src : str) : env :=
   let items := lex (cfg_with d base) src in
-  {| dv := d; cx := mk_ctx (byte_len src) items; fuel := S (length items) |}.
+  {| dv := d; cx := mk_ctx src items; fuel := S (length items) |}.
 
 Lemma parse_document_sound d base src doc r :
   parse_document d base src = POk doc r -> r = [] /\ g_document d (lex (cfg_with d base) src) [] doc.
